@@ -1823,6 +1823,7 @@ class SpaceUpdater(SharedSpaceOperations):
             subs.update(nx.descendants(self._graph, n))
         subs.difference_update(nodes_removed)
 
+        spaces_removed = [self._graph.to_space(n) for n in nodes_removed]
         self._graph.remove_nodes_from(nodes_removed)
 
         for v in nx.topological_sort(self._graph.subgraph(subs)):
@@ -1832,6 +1833,8 @@ class SpaceUpdater(SharedSpaceOperations):
 
         self._instructions.execute()
         self._update_manager()
+        for removed in spaces_removed:
+            self.model.refmgr.del_space_refs(removed)
 
         if space is self.model.currentspace:
             self.model.currentspace = None
@@ -1966,6 +1969,19 @@ class ReferenceManager:
                 )
                 if spec:
                     self._manager.del_spec(spec)
+
+    def del_space_refs(self, space):
+        """Unregister the references defined in deleted ``space``"""
+        for ref in space.own_refs.values():
+            val = ref.interface
+            refs = self._valid_to_refs.get(id(val), ())
+            if any(ref is r for r in refs):     # False if ref is derived
+                refs.remove(ref)
+                if not refs:
+                    del self._valid_to_refs[id(val)]
+                    spec = self.get_spec(val)
+                    if spec:
+                        self._manager.del_spec(spec)
 
     def change_ref(self, impl, name, value, refmode=None):
 
